@@ -430,7 +430,26 @@ func (c *Variant) Equals(obj *Variant) bool {
 	if value1 == nil || value2 == nil {
 		return value1 == value2
 	}
-	return c.typ == obj.typ && value1 == value2
+	if c.typ != obj.typ {
+		return false
+	}
+	if c.typ == Array {
+		array1 := c.AsArray()
+		array2 := obj.AsArray()
+		if len(array1) != len(array2) {
+			return false
+		}
+		for index := range array1 {
+			if array1[index] == array2[index] {
+				continue
+			}
+			if array1[index] == nil || !array1[index].Equals(array2[index]) {
+				return false
+			}
+		}
+		return true
+	}
+	return value1 == value2
 }
 
 // Clone the variant value
